@@ -319,6 +319,10 @@ def run(tier):
     if never or r.depth < 12:
         raise MachineryError('Site %s: actions never taken: %s (depth %d)' % (cfg, never, r.depth))
     if tier != 'quick':
+        # #R references with the explicit anchor "address of the containing entry" (the quick cfg has them as well)
+        ra = tlc.model_check('doc', 'Site', 'Site_mca.cfg', timeout=3000, coverage=False)
+        rep.add_tlc(ra, 'Site_mca.cfg')
+        rep.model_violation(ra, 'Site_mca.cfg')
         # the invariants are able to fail: the model of skoolkit's single-page remote operand links violates one
         r2 = tlc.model_check('doc', 'Site', 'Site_dev.cfg', timeout=3000, coverage=False)
         rep.add_tlc(r2, 'Site_dev.cfg')
